@@ -182,6 +182,23 @@ def main():
     # ---- replay mode ------------------------------------------------------
     if mode == "replay":
         path = os.path.abspath(sys.argv[3])
+        if open(path, "rb").read(16).startswith(b"go test fuzz"):
+            fz = cfg["fuzz"]
+            corpus = os.path.join(HARNESS, cfg["pkg"], "testdata", "fuzz", fz["target"])
+            os.makedirs(corpus, exist_ok=True)
+            name = os.path.basename(path)
+            if os.path.dirname(path) != corpus:
+                shutil.copy(path, os.path.join(corpus, name))
+            p = subprocess.run(["go", "test", "-tags", "verif", "-vet=off", "-run", "^%s$/%s$" % (fz["target"], name),
+                                "./" + cfg["pkg"]], cwd=HARNESS, env=base_env("replay"),
+                               stdout=subprocess.PIPE, stderr=subprocess.STDOUT, text=True)
+            print(p.stdout[-6000:])
+            shutil.rmtree(scratch, ignore_errors=True)
+            if p.returncode == 0:
+                log("replay passed: no violation on this tree")
+                sys.exit(0)
+            log("VIOLATION property=%s replay=%s" % (pid, path))
+            sys.exit(1)
         race = any(st.get("race") for st in cfg["stages"]) and cfg.get("replay_race", False)
         binp = build(cfg["pkg"], race)
         if not binp:
@@ -283,6 +300,37 @@ def main():
         else:
             broken.append("shard %s: rc=%s without a recorded violation\n%s" % (s.name, s.rc, out[-3000:]))
 
+    # ---- native fuzzing (thorough tier only; cannot be seeded) -------------
+    fuzz_info = None
+    fz = cfg.get("fuzz")
+    if fz and mode == "thorough" and not violations:
+        corpus = os.path.join(pkgdir, "testdata", "fuzz", fz["target"])
+        before = set(os.listdir(corpus)) if os.path.isdir(corpus) else set()
+        secs = int(os.environ.get("VERIF_FUZZ_SECONDS", fz["seconds"]))
+        cmd = ["go", "test", "-tags", "verif", "-vet=off", "-run", "^$", "-fuzz", "^%s$" % fz["target"],
+               "-fuzztime", "%ds" % secs, "./" + cfg["pkg"]]
+        env = base_env("fuzz")
+        t0 = time.time()
+        try:
+            p = subprocess.run(cmd, cwd=HARNESS, env=env, stdout=subprocess.PIPE, stderr=subprocess.STDOUT,
+                               text=True, timeout=secs + 600)
+            out, rc = p.stdout, p.returncode
+        except subprocess.TimeoutExpired as e:
+            out, rc = (e.stdout or ""), "timeout"
+        after = set(os.listdir(corpus)) if os.path.isdir(corpus) else set()
+        execs = re.findall(r"execs: (\d+)", out)
+        fuzz_info = {"target": fz["target"], "seconds": secs, "execs": int(execs[-1]) if execs else 0,
+                     "new_interesting": re.findall(r"new interesting: (\d+)", out)[-1:] or ["0"]}
+        new = sorted(after - before)
+        if rc == "timeout":
+            broken.append("native fuzz run timed out")
+        elif rc != 0 and new:
+            for n in new:
+                violations.append((os.path.join(corpus, n), out[-3000:]))
+        elif rc != 0:
+            broken.append("native fuzz run failed without a crasher:\n" + out[-3000:])
+        log("native fuzz %s: %s execs in %.0fs, rc=%s" % (fz["target"], fuzz_info["execs"], time.time() - t0, rc))
+
     # ---- merge evidence ---------------------------------------------------
     ev_n, nontriv, distinct = 0, 0, set()
     classes, counters, khits, samples, exhaustive = {}, {}, {}, [], {}
@@ -325,6 +373,7 @@ def main():
             "exhaustive_subspaces": sorted(k for k, v in exhaustive.items() if v),
             "replayed_regressions": len(rfiles),
             "shards": len(shards),
+            "native_fuzz": fuzz_info,
             "exhaustive": False,
         },
         "assumptions": cfg["assumptions"],
